@@ -1776,6 +1776,7 @@ def r9_conjugate_set_guards(ctx):
     gds = _state_guards(ctx, O.UNC, "SolveUnc", "delconj")
     if not gas or not gds:
         raise AnchorError("SolveUnc: a guarded call of addconj and one of delconj")
+    typestate_decided = _r9_typestate(ctx)
     bad = [f for g, f in gas + gds if g is None]
     if bad:
         ctx.error("addconj / delconj: each is applied under a single comparison", bad[0], [f.name for f in bad])
@@ -1804,6 +1805,11 @@ def r9_conjugate_set_guards(ctx):
             continue
         same_pair = (P.equals(X) and Q.equals(Y)) or (P.equals(Y) and Q.equals(X))
         ok = same_pair and opa in ("NotEq", "Gt", "Lt")
+        if not same_pair and typestate_decided:
+            # the same split of the states spelled over other sizes (len(pc.lam) ...): decided on concrete sizes by the typestate, whose worlds
+            # include a half set of intermediate size
+            ctx.ok(f"{fa.name}: addconj is applied under a comparison of other sizes than delconj's (decided on concrete sizes by the typestate)", fa, nontrivial=False)
+            continue
         ctx.check(ok, f"{fa.name}: addconj is applied in every state in which delconj is not - its guard negates delconj's equality between the same two sizes", fa,
                   None if ok else {"addconj is applied when": f"{opa}({P!r}, {Q!r})", "delconj is applied when": f"Eq({X!r}, {Y!r})",
                                    "consequence": "a half set whose size is neither of the two tested values (real roots mixed with complex pairs) is not expanded: "
@@ -1830,6 +1836,10 @@ def r9_conjugate_set_guards(ctx):
         if not hit:
             continue
         g = _reached_when(run.paths, names)
+        if g is None and typestate_decided:
+            # flag attributes take part in the decision: what they establish over sequences of calls is decided by the typestate above
+            ctx.ok(f"{run.label}: whether fsolve reaches addconj depends on more than one test of the solver's state (decided by the typestate over call sequences)", node, nontrivial=False)
+            continue
         if g is None:
             ctx.error(f"{run.label}: the states in which fsolve reaches addconj are not those of a single comparison", node,
                       [[f"{v!r} is {b}" for v, b in dec] + ["-> addconj" if any(c[0] in names for c in tr.calls) else "-> no addconj"] for dec, tr in run.paths])
@@ -1837,9 +1847,57 @@ def r9_conjugate_set_guards(ctx):
         opa, P, Q = g[0], g[1], g[2]
         same_pair = (P.equals(X) and Q.equals(Y)) or (P.equals(Y) and Q.equals(X))
         ok = same_pair and opa in ("NotEq", "Gt", "Lt")
+        if not same_pair and typestate_decided:
+            ctx.ok(f"{run.label}: fsolve reaches addconj under a comparison of other sizes than delconj's (decided on concrete sizes by the typestate)", node, nontrivial=False)
+            continue
         ctx.check(ok, f"{run.label}: fsolve reaches addconj in every state in which delconj is not applied (all the tests on the way taken together)", node,
                   None if ok else {"addconj is reached when": f"{opa}({P!r}, {Q!r})", "delconj is applied when": f"Eq({X!r}, {Y!r})"},
                   key="C02-R9|SolveUnc._addconj|guard is not the negation of _delconj's")
+
+
+_TS_ENTRIES = {"fsolve": "full", "tsolve": "half", "generator": "half", "get_f2x": "half"}
+
+
+def _r9_typestate(ctx):
+    """Typestate over the solver object (verifier/c02_conj.py): every sequence of at most three calls of the public entry points is run on the abstract
+    state (conjugate set stored: full / half; flag attributes the followed code stores and tests), the methods' own code followed by value.  At every
+    point where fsolve reads the eigen set the state must be "full", where a time-domain entry point reads it "half".  A sequence that breaks this
+    from BOTH possible initial states (the constructor leaves either, depending on h) is an execution of the real object: VIOLATION with the
+    sequence as witness.  Broken from one initial state only: undecided.  Returns True when every world was decided."""
+    from . import c02_conj as CJ
+    node = ctx.src.func(O.UNC, "SolveUnc.fsolve")
+    try:
+        res = CJ.analyse(ctx, _classes("SolveUnc"), _TS_ENTRIES, fixed={("self.unc", False), ("self.ksize", True), ("self.nonrfsz", True)})
+    except Unsupported as e:
+        ctx.error("SolveUnc: conjugate-set typestate over sequences of fsolve / tsolve / generator / get_f2x", node, str(e))
+        return False
+    decided = True
+    for r in res:
+        n, nh = r["world"]
+        label = f"SolveUnc, {n} equations ({2 * n} modes; the half set keeps {nh})"
+        missing = [e for e in _TS_ENTRIES if e not in r["seen"]]
+        if missing and not any(r["witness"].values()):
+            ctx.error(f"{label}: no read of the eigen set is reached in {missing}", node)
+            decided = False
+            continue
+        wf, wh = r["witness"]["full"], r["witness"]["half"]
+        for kind, text in (("full", "fsolve sums over the full conjugate set"), ("half", "the time-domain entry points run on the half set")):
+            hits = [w for w in (wf, wh) if w is not None and _TS_ENTRIES[w[1][0]] == kind]
+            both = wf is not None and wh is not None
+            if hits and not both:
+                ctx.error(f"{label}: {text} after every sequence of at most 3 calls - broken from one of the two initial states only", node,
+                          {"witness": [{"sequence": list(w[0]), "reads": f"pc.{w[1][1]} (line {w[1][3]}) on the {w[1][2]} set", "configuration": [f"{k} is {b}" for k, b in w[2]]} for w in hits]})
+                decided = False
+                continue
+            ok = not hits
+            w = min(hits, key=lambda w: (len(w[0]), w[0] != ("fsolve", "tsolve", "fsolve"))) if hits else None
+            ctx.check(ok, f"{label}: {text} after every sequence of at most 3 calls of fsolve / tsolve / generator / get_f2x on one object", node,
+                      None if ok else {"witness sequence": list(w[0]), "then": f"{w[0][-1]} reads pc.{w[1][1]} (line {w[1][3]}) while the object holds the {w[1][2]} set",
+                                       "configuration": [f"{k} is {b}" for k, b in w[2]],
+                                       "initial state": "either (full or half set stored by the constructor)",
+                                       "consequence": "fsolve sums over one mode of each conjugate pair only" if kind == "full" else "the recurrence runs on both modes of each pair"},
+                      key="C02-R9|SolveUnc|conjugate-set typestate over call sequences")
+    return decided
 
 
 def _reached_when(paths, names):
@@ -2021,7 +2079,7 @@ RULES = [
     ("C02-R5", r5_solvepsd, 8),
     ("C02-R7", r7_every_force_counts, 2),
     ("C02-R8", r8_structure_assumption, 2),
-    ("C02-R9", r9_conjugate_set_guards, 6),
+    ("C02-R9", r9_conjugate_set_guards, 12),
     ("C02-R10", r10_static_and_rigid_limits, 20),
 ]
 LEVEL = "other"
@@ -2041,12 +2099,14 @@ MANIFEST = {
             "force loop: only a vanishing force PSD may skip an iteration, because the direct term drmf[:, i] bypasses the equations); (R8) a structure "
             "assumption handed to the solver of the dynamic stiffness must be derived from every matrix of H; (R9) the conditions under which addconj / delconj are applied (in SolveUnc._addconj / "
             "_delconj or wherever those calls live) are complementary, also on the whole path from fsolve to the call (the full conjugate set is "
-            "restored before every frequency solve unless it is already full); (R10) the two limits of the dynamic stiffness that are solved apart: "
+            "restored before every frequency solve unless it is already full), and a typestate over the solver object: every sequence of at most three calls of "
+            "fsolve / tsolve / generator / get_f2x is run on the abstract state (full / half conjugate set stored, flag attributes the methods store and test; "
+            "size tests evaluated on concrete shapes in three worlds) - fsolve reads the eigen set only in the state full, the time-domain entry points only in the state half; (R10) the two limits of the dynamic stiffness that are solved apart: "
             "what is stored on the rf rows of d times k_rf is F, the rigid-body acceleration times m_rb is F (the inverse / LU state the code uses is read "
             "from the methods that assign it). R1, R2 and R10 are also evaluated in the pre_eig regime, where F is the force in the modal coordinates the rows "
             "live in, Phi^T F with Phi the transformation _solution_freq applies to the responses. "
             "Not decided: accuracy of the complex-mode path, singular H, library solves.",
     "note": "Trusted: CPython ast; verifier/e2_formula.py (commutative normal forms: matrix products are abstracted to scalar products), verifier/c02_sem.py "
-            "(path evaluator), verifier/c02_types.py with the attribute table of verifier/ode_spaces.py (read from _BaseODE, one reason per line).",
+            "(path evaluator), verifier/c02_conj.py (typestate interpreter; shapes of the eigen-set arrays as _add_partition_copies slices them), verifier/c02_types.py with the attribute table of verifier/ode_spaces.py (read from _BaseODE, one reason per line).",
     "technique": "whole-path symbolic evaluation per configuration to exact normal forms + partition-space type inference on the evaluated values",
 }
